@@ -12,6 +12,9 @@
                                                            argument, is that compliant
     races.apredict {"api","param"}                      → does the table predict a race report on the caller's memory
                                                            behind this argument (the library keeps the argument)
+    races.local    {"fn","var"}                         → is the variable in the table of locals written by goroutines
+                                                           of their function, is it disciplined
+    races.lpredict {"fn","var"}                         → does that table predict a race report on the variable
 -/
 import Mcp.Drv.Util
 import Mcp.Model.Lockset
@@ -20,6 +23,8 @@ import Mcp.Gen.FieldLocks
 import Mcp.Gen.Globals
 import Mcp.Model.ApiArgs
 import Mcp.Gen.ApiArgs
+import Mcp.Model.GoClosures
+import Mcp.Gen.GoClosures
 namespace Mcp.Drv.Races
 open Lean Mcp.Drv Mcp.Lockset Mcp.Globals
 
@@ -80,11 +85,27 @@ def handleGlobal (op : String) (j : Json) : Except String Json := do
       | some g => predicted [asField g] pkg name f1 f2 || predicted [asField g] pkg name f2 f1
     pure (Json.mkObj [("predicted", Json.bool p)])
 
+def handleLocal (op : String) (j : Json) : Except String Json := do
+  let fn ← getText j "fn"
+  let var ← getText j "var"
+  let l? := Mcp.Gen.rcSharedLocals.find? (fun l => l.fn == fn && l.var == var)
+  match op with
+  | "local" =>
+    match l? with
+    | none => pure (Json.mkObj [("known", Json.bool false), ("disciplined", Json.bool false)])
+    | some l => pure (Json.mkObj [("known", Json.bool true), ("disciplined", Json.bool (Mcp.GoClosures.lDisciplined l))])
+  | _ =>
+    let p := match l? with
+      | none => false
+      | some l => !Mcp.GoClosures.lDisciplined l
+    pure (Json.mkObj [("predicted", Json.bool p)])
+
 def handle (op : String) (j : Json) : Except String Json :=
   match op with
   | "field" | "predict" => handleField op j
   | "global" | "gpredict" => handleGlobal op j
   | "arg" | "apredict" => handleArg op j
+  | "local" | "lpredict" => handleLocal op j
   | o => throw s!"unknown op {o}"
 
 end Mcp.Drv.Races
